@@ -125,6 +125,7 @@ func (s *Sim) RunStep(i int, st Step) (res StepResult, infra error) {
 			var apan any
 			func() {
 				defer func() { apan = recover() }()
+				ctx.Commit()
 				s.Apply(b, bs)
 			}()
 			if apan != nil {
